@@ -25,7 +25,7 @@ API = {0: 'parallel_for(ts, start, end, f(b,e), opts)', 1: 'parallel_for(ts, sta
 def inst(name, N, S, mode=0, wait=2, api=0, tiers=('quick', 'thorough'), timeout=280, unwind=None, thorough=None, **kw):
     defs = {'VF_N': N, 'VF_S': S, 'VF_MODE': mode, 'VF_WAIT': wait, 'VF_DEPTH': N + 1, 'VF_API': api}
     defs.update(kw)
-    d = {'name': name, 'src': 'conc.cpp', 'engine': 'cbmc', 'defs': defs, 'models': ['aligned_alloc'],
+    d = {'name': name, 'src': 'conc.cpp', 'engine': 'cbmc', 'defs': defs, 'models': ['aligned_alloc'], 'rt_defs': {'VF_SCALAR_INLOG': 1},
          'unwind': unwind or max(S + 2, N + 3), 'timeout': timeout, 'tiers': list(tiers),
          'unwind_fn': {'re:parallel_for_dynamicMultiGroupImpl.*_clI': 1},
          'bounds': ('%s; int32 range, start %d, size 0..%d; %s; numPoolThreads = %d; maxThreads 0..%d or INT32_MAX; '
